@@ -224,7 +224,7 @@ func runInlineEnums(r *vh.Rand, cfg *vh.Config, res *vh.Result, cf *vh.CasesFile
 			names = append(names, name)
 			if i > 0 && r.Chance(35) {
 				gd := genProp04(r, name, top)
-				for gd.Class == "compile-error" || readerFails(gd.P) || gd.P.T.Kind == TEnum {
+				for refused(gd.Class) || readerFails(gd.P) || gd.P.T.Kind == TEnum {
 					gd = genProp04(r, name, top)
 				}
 				plain = append(plain, gd.P)
@@ -235,7 +235,7 @@ func runInlineEnums(r *vh.Rand, cfg *vh.Config, res *vh.Result, cf *vh.CasesFile
 			var gd genDecl
 			for {
 				gd = genProp04(r, name, e)
-				if gd.P.T.Kind == TEnum && gd.Class != "compile-error" {
+				if gd.P.T.Kind == TEnum && !refused(gd.Class) {
 					break
 				}
 			}
